@@ -50,11 +50,11 @@ func consoleSession(hash uint, minDepth bool, cmds []string) []string {
 			}
 		}
 	}
-	drain(50*time.Millisecond, "")
+	drain(20*time.Millisecond, "")
 	for _, cmd := range cmds {
 		in <- cmd
 		if strings.HasPrefix(cmd, "analyze") {
-			lines := drain(150*time.Millisecond, "Search, depth=")
+			lines := drain(60*time.Millisecond, "Search, depth=")
 			score, best := "-", "-"
 			for _, l := range lines {
 				if strings.HasPrefix(l, "depth=") {
@@ -70,7 +70,7 @@ func consoleSession(hash uint, minDepth bool, cmds []string) []string {
 			}
 			results = append(results, score+" "+best)
 		} else {
-			drain(50*time.Millisecond, "")
+			drain(20*time.Millisecond, "")
 		}
 	}
 	in <- "quit"
@@ -87,6 +87,32 @@ func consoleTableChecks(c *caseCtx) {
 		"r3k2r/p1ppqpb1/bn2pnp1/3PN3/1p2P3/2N2Q1p/PPPBBPPP/R3K2R w KQkq - 0 1",
 		"8/2p5/3p4/KP5r/1R3p1k/8/4P1P1/8 w - - 0 1",
 		"6k1/5ppp/8/8/8/8/5PPP/R5K1 w - - 0 1",
+	}
+	// scripted: from one small position, every legal move in turn - set up with the move played, analyse,
+	// undo, analyse one ply deeper (the table then holds what the per-move breakdown of the first analysis
+	// left behind, for the very position the second analysis passes through)
+	{
+		f := starts[0]
+		pos, turn, _, _, _ := fen.Decode(f)
+		for i, mv := range legalMoves(pos, turn) {
+			cmds := []string{"reset " + f + " moves " + uciMove(mv), "analyze 2", "undo", "analyze 3"}
+			with := consoleSession(1, i%4 < 2, cmds)
+			without := consoleSession(0, false, cmds)
+			n++
+			for k := range with {
+				if k >= len(without) {
+					break
+				}
+				ws, os := strings.Fields(with[k]), strings.Fields(without[k])
+				if len(ws) < 2 || len(os) < 2 || ws[0] == "-" || os[0] == "-" {
+					continue
+				}
+				if ws[0] != os[0] {
+					fmt.Printf("IMPLVIOL console %s :: analysis #%d reports score %s (bestmove %s) with a hash table, %s (bestmove %s) without prop=C11 key=console-table\n", strings.Join(cmds, "; "), k+1, ws[0], ws[1], os[0], os[1])
+					break
+				}
+			}
+		}
 	}
 	for g := 0; g < c.scale(10, 150); g++ {
 		f := starts[g%len(starts)]
